@@ -220,7 +220,7 @@ MANIFESTS = [
 def e2e_cases(ctx, rng, count):
     out = []
     for i in range(count):
-        stream = ["bbb", "tears", "syn1", "syn2", "syn3", "syn4", "syn5", "syn7", "syn8", "syn9", "syn10"][i % 11]
+        stream = ["bbb", "tears", "syn1", "syn2", "syn3", "syn4", "syn5", "syn7", "syn8", "syn9", "syn10", "synodd"][i % 12]
         man, q = MANIFESTS[(i // 5) % len(MANIFESTS)]
         opts = [q] if q else []
         start = rng.choice(["epoch", "year", "month", "today", "explicit"])
@@ -268,7 +268,7 @@ def e2e_cases(ctx, rng, count):
                             ("playready__piff", ["0", "1"], .15 if stream == "bbb" else 0)):
             if rng.random() < p_:
                 opts.append(f"{k}={rng.choice(vals)}")
-        if stream == "syn9" and (i // 11) % 2 == 0 and not young:
+        if stream == "syn9" and (i // 12) % 2 == 0 and not young:
             # start, depth and leeway come from the stream's stored defaults only
             opts = [o for o in opts if not o.startswith(("start=", "depth=", "leeway=", "mup="))]
             if now.year < 2023:
@@ -283,7 +283,7 @@ def e2e_cases(ctx, rng, count):
             out.append((other, url.replace(f"/{stream}/", f"/{other}/", 1), now))
     # fixed grid: every synthetic layout in its first pass through the media (loop origin 0), by $Number$ and by
     # $Time$, at two ages – what a served segment carries must not depend on a later wrap having happened
-    for k, stream in enumerate(["syn9", "syn1", "syn8", "syn3", "syn5", "syn2", "syn10"]):
+    for k, stream in enumerate(["syn9", "syn1", "syn8", "syn3", "syn5", "syn2", "syn10", "synodd"]):
         for q in ("", "timeline=1"):
             for age in (7, 16):
                 now = datetime.datetime(2024, 3, 1 + k, 10, 20, 30, 250000 * (age % 4), tzinfo=datetime.timezone.utc)
@@ -351,12 +351,23 @@ def ch_segserve(ctx) -> Channel:
     from dashlive.server.options.repository import OptionsRepository
     leeway_us = int(OptionsRepository.get_default_options().leeway) * 10 ** 6
     lines, recs = [], []
+    seen_ref: set = set()
     with appboot.Clock("2023-01-01T00:00:00Z") as clock:
-        for stream, url, now, *rest in e2e_cases(ctx, rng, ctx.scale(44, 500)):
+        for stream, url, now, *rest in e2e_cases(ctx, rng, ctx.scale(48, 500)):
             delay = rest[0] if rest else 0
             if delay:
                 ch.count("media_fetched_later_than_manifest")
             trk = segchecks.tracks(app, stream)
+            t0_ = next(iter(trk.values()), None)
+            if t0_ is not None and t0_.ref_dur_file is not None and stream not in seen_ref:
+                # "the stream's timing-reference duration" is the duration of the reference media: the stored
+                # snapshot all loop arithmetic uses must equal it
+                seen_ref.add(stream)
+                d_, ts_ = t0_.ref_dur_file
+                if d_ * t0_.ref_ts != t0_.ref_dur * ts_:
+                    ch.oracle_failures.append({"kind": "reference-duration", "stream": stream, "url": url,
+                                               "what": f"the stored timing reference lasts {t0_.ref_dur}/{t0_.ref_ts} s, "
+                                                       f"the reference media file lasts {d_}/{ts_} s"})
             mpd, status, fetches = segchecks.walk_manifest(app, client, clock, stream, url, now, rng,
                                                            per_rep=ctx.scale(6, 14), want_init=True, fetch_delay_s=delay)
             ch.count(f"manifest_status={status}")
@@ -499,6 +510,11 @@ def search(ctx, disagreements):
 
 def replay(ctx, payload):
     f = payload.get("failure") or {}
+    if f.get("kind") == "reference-duration":
+        import segchecks
+        t0_ = next(iter(segchecks.tracks(segchecks.get_app(), f["stream"]).values()))
+        d_, ts_ = t0_.ref_dur_file
+        return {"fails": d_ * t0_.ref_ts != t0_.ref_dur * ts_, "stored": [t0_.ref_dur, t0_.ref_ts], "file": [d_, ts_]}
     if f.get("kind") in ("time-resolves",):
         lay = segpure.Layout.from_json(f["layout"])
         _, rep, _ = segpure.make_objects(lay, "live")
